@@ -22,7 +22,7 @@ def main():
                 variants.add(s.get("tool_variant", "asan"))
                 if ("tool", t) not in seen:
                     seen.add(("tool", t))
-                    jobs.append(lambda t=t, s=s: build.tool(t, s.get("tool_variant", "asan")))
+                    jobs.append(lambda t=t, s=s: build.tool(t.replace("-", "_"), s.get("tool_variant", "asan")))
     build.build_many([lambda v=v: build.lib(v) for v in sorted(variants)])
     build.build_many(jobs)
     # reference self-test
